@@ -8,6 +8,8 @@ import warnings
 
 import numpy as np
 
+import c06ops_impl as ops
+
 warnings.simplefilter('ignore')
 
 
@@ -45,25 +47,13 @@ def run_pipe(case):
     ci = mk_chinfo(case['mods'])
     legs = [mk_leg(ci, s) for s in case['legs']]
     p = LegPipe(legs, qconj=case['qconj'], sort=case['sort'], bunch=case['bunch'])
-    out = {'charges': [[int(x) for x in c] for c in p.charges], 'slices': [int(x) for x in p.slices],
-           'q_map': [[int(x) for x in r] for r in p.q_map], 'q_map_slices': [int(x) for x in p.q_map_slices],
-           'sorted': bool(p.sorted), 'bunched': bool(p.bunched), 'ind_len': int(p.ind_len),
-           'block_number': int(p.block_number), 'qconj': int(p.qconj)}
-    mif = []
-    for t in itertools.product(*[range(l.ind_len) for l in legs]):
-        try:
-            mif.append(int(p.map_incoming_flat(list(t))))
-        except Exception as e:
-            mif.append(None)
-            out.setdefault('mif_error', type(e).__name__ + ': ' + str(e)[:80])
-    out['mif'] = mif
-    out['qflat'] = [[int(x) for x in c] for c in p.to_qflat()]
-    out['leg_qflat'] = [[[int(x) for x in c] for c in l.to_qflat()] for l in legs]
-    out['sane'] = sane(p)
-    # _map_incoming_qind on the grid of block tuples
-    grid = np.array(list(itertools.product(*[range(l.block_number) for l in legs])), dtype=np.intp).reshape(-1, len(legs))
-    j = p._map_incoming_qind(grid)
-    out['qind_ok'] = bool(np.all(p.q_map[j, 3:] == grid))
+    out = ops.pipe_desc(p)      # charges, slices, q_map, q_map_slices, flags, stored legs, map_incoming_flat on every tuple
+    mif = out['mif']
+    # every public method that returns a leg, applied to the pipe (found by reflection, see c06ops_impl.py)
+    aux = {'extend_leg': legs[0], 'extend_int': 1}
+    if case.get('table'):
+        out['method_table'] = ops.method_table(p, aux)
+    out['ops'] = ops.apply_all(p, aux, base_pipe=dict(out), arr_seed=case.get('arr_seed'))
     # conj
     c = p.conj()
     out['conj'] = {'qconj': int(c.qconj), 'legs_qconj': [int(l.qconj) for l in c.legs],
@@ -160,6 +150,12 @@ def run_leg(case):
     t('contr_self_flip', l.test_contractible, fl)
     out['rel'] = rel
     out['get_qindex'] = [[i, gq(l, i)] for i in range(-n - 2, n + 3)]
+    # every public method that returns a leg, applied to the plain leg (same machinery as for pipes)
+    aux = {'mask': case['mask'], 'extend_int': ex if isinstance(ex, int) else 1,
+           'extend_leg': None if isinstance(ex, int) else mk_leg(ci, ex)}
+    if case.get('table'):
+        out['method_table'] = ops.method_table(l, aux)
+    out['ops'] = ops.apply_all(l, aux)
     return out
 
 
